@@ -122,6 +122,7 @@ fn bfs(st: &Stats, name: &str, max_depth: Option<u32>, state_cap: usize) {
                 let mut news = vec![];
                 let mut viol = vec![];
                 let mut t = 0u64;
+                let mut local_seen: std::collections::HashSet<Vec<u64>> = Default::default();
                 for y in 0..n {
                     if x < fs && y < fs {
                         continue;
@@ -135,7 +136,12 @@ fn bfs(st: &Stats, name: &str, max_depth: Option<u32>, state_cap: usize) {
                             viol.push(Violation { clause: c.clone(), key: format!("{name}:{}", e), case: json!({"prop": "C11", "kind": "chain", "family": name, "expr": e}) });
                         }
                         if let Ok(r) = r {
-                            news.push((x, y, op, r, want));
+                            // keep only representations that are new with respect to the states known at the
+                            // start of this level (the index is read-only here) and new within this task
+                            let k = key_of(&r);
+                            if !index.contains_key(&k) && local_seen.insert(k) {
+                                news.push((x, y, op, r, want));
+                            }
                         }
                     }
                 }
